@@ -1,11 +1,329 @@
 /-
   C26 — generated schemas are well formed and match the entity model.  Property theorems only.
+
+  `runOps d {} ops`   : any list of registry operations on the model of pony/orm/dbschema.py (Model/Schema.lean)
+  `generate d D`      : the model of `Database.generate_mapping` on any list of entity declarations (Model/Mapping.lean)
+  Both are tied to /repo on every run by harness/engines/c26.py.
 -/
 import PonyVerif.Model.Mapping
 namespace PonyVerif.Props.C26
 open PonyVerif.Model.Schema PonyVerif.Model.Mapping
 
+/-! ### statements -/
+
+/-- names are pairwise distinct per name space: tables; columns within each table; tables, named indexes and named
+    foreign keys together (they share `schema.names`) -/
+def Distinct (s : Schema) : Prop :=
+  (tableNames s).Nodup ∧ (∀ t, ((tableCols s t).map (·.name)).Nodup) ∧ (objNames s).Nodup
+
+/-- every name of the schema -/
+def allNames (s : Schema) : List Name :=
+  tableNames s ++ s.columns.map (·.name) ++ s.indexes.filterMap (·.name) ++ s.fks.filterMap (·.name)
+
+def fits (d : Dialect) (n : Name) : Bool := n.length ≤ maxNameLen d
+
+/-- names with the given provenance respect the dialect's limit -/
+def srcFit (d : Dialect) (p : Src → Bool) (s : Schema) : Bool :=
+  s.tables.all (fun t => !p t.src || fits d t.name) &&
+  s.columns.all (fun c => !p c.src || fits d c.name) &&
+  s.indexes.all (fun i => !p i.src || (match i.name with | some n => fits d n | none => true)) &&
+  s.fks.all (fun f => !p f.src || (match f.name with | some n => fits d n | none => true))
+
+/-- names given verbatim by the user (`_table_`, `column=`, `table=`, `index=`, `fk_name=` …) fit -/
+def explicitFit (d : Dialect) (s : Schema) : Bool := srcFit d (· == .explicit) s
+/-- names to which Pony appends a suffix *after* normalisation (`<m2m table>_<n>`, `<column>_2`) fit -/
+def suffixedFit (d : Dialect) (s : Schema) : Bool := srcFit d (· == .suffixed) s
+
+def AllFit (d : Dialect) (s : Schema) : Prop := ∀ n ∈ allNames s, n.length ≤ maxNameLen d
+
+/-! ### names -/
+
+/-- `normalize_name` never returns more than `max_name_len` characters (all dialects, all names) -/
 theorem C26_normalize_len (d : Dialect) (n : Name) : (normalizeName d n).length ≤ maxNameLen d :=
   normalizeName_length d n
+
+/-- every provider default name fits (index, foreign key, entity table, m2m table, columns, m2m columns) -/
+theorem C26_default_names_len (d : Dialect) (a b c : Name) (cols : List Name) (p u m : Bool) :
+    (defaultIndexName d a cols p u m).length ≤ maxNameLen d ∧ (defaultFkName d a cols).length ≤ maxNameLen d ∧
+    (defaultEntityTableName d a).length ≤ maxNameLen d ∧ (defaultM2mTableName d a b c u).length ≤ maxNameLen d ∧
+    (∀ x ∈ defaultColumnNames d a (some cols), x.length ≤ maxNameLen d) ∧
+    (∀ x ∈ defaultM2mColumnNames d a cols, x.length ≤ maxNameLen d) := by
+  refine ⟨normalizeName_length _ _, normalizeName_length _ _, normalizeName_length _ _, normalizeName_length _ _, ?_, ?_⟩
+  · intro x hx
+    unfold defaultColumnNames at hx
+    split at hx
+    · simp at hx; subst hx; exact normalizeName_length _ _
+    · simp at hx; subst hx; exact normalizeName_length _ _
+    · simp only [List.mem_map] at hx
+      obtain ⟨_, _, rfl⟩ := hx; exact normalizeName_length _ _
+  · intro x hx
+    unfold defaultM2mColumnNames at hx
+    split at hx
+    · simp at hx; subst hx; exact normalizeName_length _ _
+    · simp only [List.mem_map] at hx
+      obtain ⟨_, _, rfl⟩ := hx; exact normalizeName_length _ _
+
+/-- the provenance-carrying default-name functions of the mapping model compute the provider functions -/
+theorem C26_default_column_names_agree (d : Dialect) (a : Name) (r : Option (List Name)) :
+    names (defaultColumnTNames d a r) = defaultColumnNames d a r ∧
+    ∀ e pk, names (defaultM2mColumnTNames d e pk) = defaultM2mColumnNames d e pk := by
+  constructor
+  · unfold defaultColumnTNames defaultColumnNames names
+    split <;> simp [TName.norm, List.map_map, Function.comp_def]
+  · intro e pk
+    unfold defaultM2mColumnTNames defaultM2mColumnNames names
+    split <;> simp [TName.norm, List.map_map, Function.comp_def]
+
+/-! ### distinctness -/
+
+theorem tableCols_nodup {s : Schema} (h : Inv s) (t : Name) : ((tableCols s t).map (·.name)).Nodup := by
+  have hk := h.colsNodup
+  unfold colKeys at hk
+  unfold tableCols
+  generalize s.columns = l at hk
+  induction l with
+  | nil => simp
+  | cons c l ih =>
+    simp only [List.map_cons, List.nodup_cons] at hk
+    obtain ⟨hnot, hrest⟩ := hk
+    simp only [List.filter_cons]
+    split
+    · rename_i hc
+      simp only [List.map_cons, List.nodup_cons]
+      refine ⟨?_, ih hrest⟩
+      intro hmem
+      simp only [List.mem_map, List.mem_filter] at hmem
+      obtain ⟨c', ⟨hc'l, hc't⟩, hname⟩ := hmem
+      apply hnot
+      simp only [List.mem_map]
+      refine ⟨c', hc'l, ?_⟩
+      have h1 : c'.table = t := by simpa using hc't
+      have h2 : c.table = t := by simpa using hc
+      simp [h1, h2, hname]
+    · exact ih hrest
+
+theorem distinct_of_inv {s : Schema} (h : Inv s) : Distinct s :=
+  ⟨h.tablesNodup, tableCols_nodup h, objNames_nodup h⟩
+
+/-- REGISTRIES, all operation lists: whatever sequence of add_table / add_column / add_index / add_foreign_key calls
+    the registries accept, the resulting names are pairwise distinct per name space and `schema.names` is exactly the
+    list of tables and named constraints -/
+theorem C26_registry_distinct (d : Dialect) (ops : List Op) (s : Schema) (h : runOps d {} ops = .ok s) :
+    Distinct s ∧ s.names.Perm (objNames s) := by
+  have hi := (runOps_inv inv_empty (lenInv_empty d) h).1
+  exact ⟨distinct_of_inv hi, List.perm_iff_count.mpr hi.namesCount⟩
+
+/-- REGISTRIES, all operation lists: the names the registries derive themselves (default index and foreign-key
+    names) fit the dialect's limit -/
+theorem C26_registry_len (d : Dialect) (ops : List Op) (s : Schema) (h : runOps d {} ops = .ok s) :
+    (∀ i ∈ s.indexes, ∀ n, i.name = some n → i.src = .norm → n.length ≤ maxNameLen d) ∧
+    (∀ f ∈ s.fks, ∀ n, f.name = some n → f.src = .norm → n.length ≤ maxNameLen d) := by
+  have hl := (runOps_inv inv_empty (lenInv_empty d) h).2
+  exact ⟨fun i hi n hn hs => (hl.indexes i hi n hn hs).1, fun f hf n hn hs => (hl.fks f hf n hn hs).1⟩
+
+theorem generate_inv {d : Dialect} {D : Decls} {s : Schema} (h : generate d D = .ok s) : Inv s ∧ LenInv d s := by
+  unfold generate at h
+  split at h
+  · rename_i st _
+    cases h
+    exact st.schema.2
+  · cases h
+
+/-- MAPPING, all declaration lists: if `generate_mapping` accepts the declarations, table names are pairwise
+    distinct, column names are pairwise distinct within each table, and table / index / foreign-key names are pairwise
+    distinct schema-wide -/
+theorem C26_names (d : Dialect) (D : Decls) (s : Schema) (h : generate d D = .ok s) : Distinct s :=
+  distinct_of_inv (generate_inv h).1
+
+/-! ### length -/
+
+theorem allFit_of {d : Dialect} {s : Schema} (hl : LenInv d s) (he : explicitFit d s = true) (hs : suffixedFit d s = true) :
+    AllFit d s := by
+  simp only [explicitFit, suffixedFit, srcFit, Bool.and_eq_true, List.all_eq_true, Bool.or_eq_true, Bool.not_eq_true',
+    beq_eq_false_iff_ne, ne_eq, fits, decide_eq_true_eq] at he hs
+  obtain ⟨⟨⟨het, hec⟩, hei⟩, hef⟩ := he
+  obtain ⟨⟨⟨hst, hsc⟩, hsi⟩, hsf⟩ := hs
+  intro n hn
+  simp only [allNames, tableNames, List.mem_append, List.mem_map, List.mem_filterMap] at hn
+  rcases hn with ((⟨t, ht, rfl⟩ | ⟨c, hc, rfl⟩) | ⟨i, hi, hin⟩) | ⟨f, hf, hfn⟩
+  · cases hsrc : t.src with
+    | norm => exact (hl.tables t ht hsrc).1
+    | explicit => rcases het t ht with h | h; exact absurd hsrc h; exact h
+    | suffixed => rcases hst t ht with h | h; exact absurd hsrc h; exact h
+  · cases hsrc : c.src with
+    | norm => exact (hl.columns c hc hsrc).1
+    | explicit => rcases hec c hc with h | h; exact absurd hsrc h; exact h
+    | suffixed => rcases hsc c hc with h | h; exact absurd hsrc h; exact h
+  · cases hsrc : i.src with
+    | norm => exact (hl.indexes i hi n hin hsrc).1
+    | explicit => rcases hei i hi with h | h; exact absurd hsrc h; simpa [hin] using h
+    | suffixed => rcases hsi i hi with h | h; exact absurd hsrc h; simpa [hin] using h
+  · cases hsrc : f.src with
+    | norm => exact (hl.fks f hf n hfn hsrc).1
+    | explicit => rcases hef f hf with h | h; exact absurd hsrc h; simpa [hfn] using h
+    | suffixed => rcases hsf f hf with h | h; exact absurd hsrc h; simpa [hfn] using h
+
+/-- the statement one would like: if the user-given names fit, every name of an accepted mapping fits -/
+def C26_len_full : Prop :=
+  ∀ (d : Dialect) (D : Decls) (s : Schema), generate d D = .ok s → explicitFit d s = true → AllFit d s
+
+/-- MAPPING, all declaration lists (guarded): every name of an accepted mapping is within `max_name_len`, provided
+    the user-given names are and the names Pony builds by appending `_<n>` / `_2` after normalisation are -/
+theorem C26_len_partial (d : Dialect) (D : Decls) (s : Schema) (h : generate d D = .ok s)
+    (he : explicitFit d s = true) (hs : suffixedFit d s = true) : AllFit d s :=
+  allFit_of (generate_inv h).2 he hs
+
+/-- the names that can break the limit are only the explicit and the suffixed ones: every name produced by
+    `normalize_name` (tag `norm`) fits, and is in lower case on PostgreSQL and MySQL -/
+theorem C26_len_derived (d : Dialect) (D : Decls) (s : Schema) (h : generate d D = .ok s) : LenInv d s :=
+  (generate_inv h).2
+
+def allFitB (d : Dialect) (s : Schema) : Bool := (allNames s).all (fits d)
+
+theorem allFitB_iff (d : Dialect) (s : Schema) : allFitB d s = true ↔ AllFit d s := by
+  simp [allFitB, AllFit, fits]
+
+/-- witness: one entity whose name has 29 characters with a symmetric many-to-many attribute (custom foreign-key
+    names, otherwise the truncated default foreign-key names collide and the mapping is rejected):
+    `class Aaaa…a(db.Entity): x = Set('Aaaa…a', reverse='x', fk_name='f1', reverse_fk_name='f2')` on Oracle.
+    The second link column is `<normalised column>_2`, 31 characters. -/
+def n29 : Name := 'A' :: List.replicate 28 'a'
+def lenWitness : Decls :=
+  [{ name := n29, root := n29, table := none,
+     attrs := [{ name := ['i', 'd'], kind := .pk, auto := true, unique := some true },
+               { name := ['x'], kind := .set, target := some n29, reverse := some ['x'],
+                 fkName := some ['f', '1'], reverseFkName := some ['f', '2'] }],
+     pkAttrs := [['i', 'd']],
+     indexes := [{ attrs := [(n29, ['i', 'd'])], isPk := true, isUnique := true }] }]
+
+def lenWitnessCheck : Bool :=
+  match generate .oracle lenWitness with
+  | .ok s => explicitFit .oracle s && !allFitB .oracle s
+  | .error _ => false
+
+/-- the unguarded statement is false for the code as it is: Pony appends `_2` after normalisation -/
+theorem C26_len_full_false : ¬ C26_len_full := by
+  intro h
+  have hw : lenWitnessCheck = true := by decide
+  unfold lenWitnessCheck at hw
+  split at hw
+  · rename_i s hs
+    simp only [Bool.and_eq_true, Bool.not_eq_true'] at hw
+    have := (allFitB_iff _ _).mpr (h .oracle lenWitness s hs hw.1)
+    rw [hw.2] at this
+    cases this
+  · cases hw
+
+/-! ### letter case -/
+
+/-- names are pairwise distinct even when compared case-insensitively (how SQLite and MySQL compare identifiers) -/
+def DistinctCI (s : Schema) : Prop :=
+  ((tableNames s).map lower).Nodup ∧ (∀ t, ((tableCols s t).map (fun c => lower c.name)).Nodup) ∧ ((objNames s).map lower).Nodup
+
+/-- the statement one would like for SQLite -/
+def C26_case_full : Prop := ∀ (D : Decls) (s : Schema), generate .sqlite D = .ok s → DistinctCI s
+
+/-- witness: `class Alpha(db.Entity): Name = Required(str); name = Required(str)` -/
+def caseWitness : Decls :=
+  [{ name := ['A'], root := ['A'], table := none,
+     attrs := [{ name := ['i', 'd'], kind := .pk, auto := true, unique := some true },
+               { name := ['N', 'a', 'm', 'e'], kind := .required, isString := true },
+               { name := ['n', 'a', 'm', 'e'], kind := .required, isString := true }],
+     pkAttrs := [['i', 'd']],
+     indexes := [{ attrs := [(['A'], ['i', 'd'])], isPk := true, isUnique := true }] }]
+
+def caseWitnessCols : List Name :=
+  match generate .sqlite caseWitness with
+  | .ok s => (tableCols s ['A']).map (fun c => lower c.name)
+  | .error _ => []
+
+/-- the unguarded statement is false: the registries compare names case-sensitively, `normalize_name` of the SQLite
+    provider does not fold case, so `Name` and `name` are both accepted as columns of one table -/
+theorem C26_case_full_false : ¬ C26_case_full := by
+  intro h
+  have hw : caseWitnessCols = [['i', 'd'], ['n', 'a', 'm', 'e'], ['n', 'a', 'm', 'e']] := by decide
+  unfold caseWitnessCols at hw
+  split at hw
+  · rename_i s hs
+    have := (h caseWitness s hs).2.1 ['A']
+    rw [hw] at this
+    simp at this
+  · cases hw
+
+theorem map_lower_eq {l : List Name} (h : ∀ n ∈ l, lower n = n) : l.map lower = l := by
+  induction l with
+  | nil => rfl
+  | cons a l ih =>
+    simp only [List.map_cons]
+    rw [h a (by simp), ih (fun n hn => h n (by simp [hn]))]
+
+/-- MAPPING, all declaration lists (guarded): if every name of the accepted mapping is in lower case, the names
+    are pairwise distinct case-insensitively -/
+theorem C26_case_partial (d : Dialect) (D : Decls) (s : Schema) (h : generate d D = .ok s)
+    (hl : ∀ n ∈ allNames s, lower n = n) : DistinctCI s := by
+  obtain ⟨h1, h2, h3⟩ := C26_names d D s h
+  refine ⟨?_, ?_, ?_⟩
+  · rw [map_lower_eq]; exact h1
+    intro n hn; exact hl n (by simp [allNames, hn])
+  · intro t
+    have : (tableCols s t).map (fun c => lower c.name) = ((tableCols s t).map (·.name)).map lower := by
+      simp [List.map_map, Function.comp_def]
+    rw [this, map_lower_eq]; exact h2 t
+    intro n hn
+    apply hl
+    simp only [List.mem_map, tableCols, List.mem_filter] at hn
+    obtain ⟨c, ⟨hc, _⟩, rfl⟩ := hn
+    simp only [allNames, List.mem_append, List.mem_map]
+    exact Or.inl (Or.inl (Or.inr ⟨c, hc, rfl⟩))
+  · rw [map_lower_eq]; exact h3
+    intro n hn
+    apply hl
+    simp only [objNames, List.mem_append] at hn
+    simp only [allNames, tableNames, List.mem_append]
+    rcases hn with (hn | hn) | hn
+    · exact Or.inl (Or.inl (Or.inl hn))
+    · exact Or.inl (Or.inr hn)
+    · exact Or.inr hn
+
+/-- on PostgreSQL and MySQL every name produced by `normalize_name` is already in lower case, so the guard of
+    `C26_case_partial` only constrains the user-given and the suffixed names -/
+theorem C26_norm_lowercase (d : Dialect) (hd : lowerCasing d = true) (D : Decls) (s : Schema) (h : generate d D = .ok s) :
+    (∀ t ∈ s.tables, t.src = .norm → lower t.name = t.name) ∧ (∀ c ∈ s.columns, c.src = .norm → lower c.name = c.name) ∧
+    (∀ i ∈ s.indexes, ∀ n, i.name = some n → i.src = .norm → lower n = n) ∧
+    (∀ f ∈ s.fks, ∀ n, f.name = some n → f.src = .norm → lower n = n) := by
+  have hl := (generate_inv h).2
+  exact ⟨fun t ht hs => (hl.tables t ht hs).2 hd, fun c hc hs => (hl.columns c hc hs).2 hd,
+         fun i hi n hn hs => (hl.indexes i hi n hn hs).2 hd, fun f hf n hn hs => (hl.fks f hf n hn hs).2 hd⟩
+
+/-! ### creation order -/
+
+/-- ORDER, all accepted mappings: `order_tables_to_create` terminates with a permutation of the tables (no table
+    lost, none twice), and every table is created after each of its parent tables unless the table has an infinite
+    chain of ancestors, i.e. lies on or depends on a cycle of foreign keys -/
+theorem C26_order (d : Dialect) (D : Decls) (s : Schema) (h : generate d D = .ok s) :
+    (orderTablesToCreate s).Perm (tableNames s) ∧
+    ∀ pre c post, orderTablesToCreate s = pre ++ c :: post → ∀ p ∈ parents s c, p ∈ pre ∨ ¬ Acc (ParentRel s) c :=
+  orderTables_spec (generate_inv h).1
+
+/-- the same for any list of registry operations -/
+theorem C26_order_registry (d : Dialect) (ops : List Op) (s : Schema) (h : runOps d {} ops = .ok s) :
+    (orderTablesToCreate s).Perm (tableNames s) ∧ GoodOrder s (orderTablesToCreate s) :=
+  orderTables_spec (runOps_inv inv_empty (lenInv_empty d) h).1
+
+/-- ORDER, acyclic case: when the foreign keys form no cycle every parent table is created before its children -/
+theorem C26_order_acyclic (d : Dialect) (D : Decls) (s : Schema) (h : generate d D = .ok s)
+    (hwf : WellFounded (ParentRel s)) :
+    ∀ pre c post, orderTablesToCreate s = pre ++ c :: post → ∀ p ∈ parents s c, p ∈ pre := by
+  intro pre c post heq p hp
+  rcases (C26_order d D s h).2 pre c post heq p hp with h1 | h1
+  · exact h1
+  · exact absurd (hwf.apply c) h1
+
+example : ∃ s, generate .oracle lenWitness = .ok s := by
+  have hw : lenWitnessCheck = true := by decide
+  unfold lenWitnessCheck at hw
+  split at hw
+  · rename_i s hs; exact ⟨s, hs⟩
+  · cases hw
 
 end PonyVerif.Props.C26
